@@ -307,7 +307,7 @@ func runConcWorkload(c core.Case, res *core.Result) *concOutcome {
 	}
 	cfg.ImmutableBuffer = []int{0, 0, 1, 2, 4}[r.Intn(5)]
 	nk := 3 + r.Intn(maxHistKeys-2)
-	keys := gen.Keys(r, "hostile", nk)
+	keys := gen.Keys(r, []string{"hostile", "prefix"}[r.Intn(2)], nk)
 	fps := map[uint64]bool{}
 	for _, k := range keys {
 		fps[utils.Hash(k)] = true
